@@ -126,12 +126,22 @@ def rule_lists(atoms, contexts, k, thin=1):
 
 
 class PolicySession(BusSession):
-    def __init__(self, rules, start_permissive=False):
+    def __init__(self, rules, start_permissive=False, include=False):
         self.rules = rules
         self.start_permissive = start_permissive
+        self.include = include
         BusSession.__init__(self, {})
 
     def target_config(self):
+        if self.include:
+            # the rules live in a file pulled in with <include>: merging it must keep their order
+            b = worker_bus()
+            if b.h.proc is None:
+                b.h.start()
+            inc = os.path.join(b.h.rundir, 'included-policy.conf')
+            with open(inc, 'w') as f:
+                f.write('<!DOCTYPE busconfig PUBLIC "-//freedesktop//DTD D-Bus Bus Configuration 1.0//EN" "http://www.freedesktop.org/standards/dbus/1.0/busconfig.dtd">\n<busconfig>\n' + P.to_xml(self.rules) + '</busconfig>\n')
+            return B.make_config(policy='', bustype=None, extra='  <include>%s</include>\n' % inc)
         return B.make_config(policy=P.to_xml(self.rules), bustype=None)
 
     def config(self):
@@ -155,13 +165,13 @@ def expect_reply(sess, l, member, body):
     return rep is not None and rep.kind == R.MT_RETURN
 
 
-def probe_config(base, test, family, reload=False):
+def probe_config(base, test, family, reload=False, include=False):
     """-> (violations, stats)"""
     rules = [dict(r) for r in base] + [dict(r) for r in test]
     out = []
     stats = {'probes': 0, 'unspec': 0, 'allowed': 0, 'denied': 0, 'unrealisable': 0}
     try:
-        sess = PolicySession(rules, start_permissive=reload)
+        sess = PolicySession(rules, start_permissive=reload, include=include)
     except B.BusError as e:
         stats['unrealisable'] += 1
         stats['config-rejected'] = 1
@@ -351,9 +361,12 @@ def task_configs(t):
     out = []
     stats = {}
     for test in lists:
-        case = {'family': family, 'base': base_name, 'test': test, 'reload': bool(t[3]) if len(t) > 3 else False}
+        case = {'family': family, 'base': base_name, 'test': test, 'reload': (len(t) > 3 and t[3] == 1), 'include': (len(t) > 3 and t[3] == 2)}
         try:
-            vs, st = probe_config(base, test, family, reload=bool(t[3]) if len(t) > 3 else False)
+            mode = t[3] if len(t) > 3 else 0
+            vs, st = probe_config(base, test, family, reload=(mode == 1), include=(mode == 2))
+            if mode == 2:
+                st['included'] = 1
         except HarnessDied as e:
             out.append(crash_violation(e, case))
             worker_bus().h.close()
@@ -382,6 +395,10 @@ def build_tasks(tier):
         rl = lists[::(4 if quick else 1)] if family != 'own' else lists
         for i in range(0, len(rl), 25):
             tasks.append((family, base, rl[i:i + 25], 1))
+        # ... and loaded from an <include>d file (every 6th list in the quick tier)
+        il = lists[::(6 if quick else 2)]
+        for i in range(0, len(il), 25):
+            tasks.append((family, base, il[i:i + 25], 2))
     send = atomic_send_rules()
     recv = atomic_recv_rules()
     own = atomic_own_rules()
@@ -427,7 +444,7 @@ def run(ctx):
     ctx.coverage.update({
         'states': configs, 'transitions': stats.get('probes', 0), 'traces_validated_against_impl': stats.get('probes', 0),
         'configurations': configs, 'probes': stats.get('probes', 0), 'judged_allowed': stats.get('allowed', 0), 'judged_denied': stats.get('denied', 0),
-        'unspecified_not_judged': stats.get('unspec', 0), 'unrealisable_setups': stats.get('unrealisable', 0), 'configurations_reached_by_reload': stats.get('reloaded', 0),
+        'unspecified_not_judged': stats.get('unspec', 0), 'unrealisable_setups': stats.get('unrealisable', 0), 'configurations_reached_by_reload': stats.get('reloaded', 0), 'configurations_from_included_file': stats.get('included', 0),
         'bound': 'rule lists of <= 2 atomic rules (%d send atoms, %d receive atoms, %d own atoms) x {allow,deny} x 3 contexts over open and closed bases%s; ~17 probes per configuration' %
                  (len(atomic_send_rules()), len(atomic_recv_rules()), len(atomic_own_rules()), ' (pairs thinned 1:9)' if ctx.tier == 'quick' else ''),
         'tasks': len(tasks), 'tasks_done': done,
@@ -438,5 +455,5 @@ def run(ctx):
 
 
 def replay(case):
-    r = task_configs((case['family'], case['base'], [case['test']], 1 if case.get('reload') else 0))
+    r = task_configs((case['family'], case['base'], [case['test']], 1 if case.get('reload') else (2 if case.get('include') else 0)))
     return [Violation.from_json(v) for v in r['viol']]
